@@ -446,8 +446,12 @@ run_stream(void *arg)
 				L = (L << 8) | W[lenoff + (size_t) i];
 			snprintf(what, sizeof(what), "length byte %d = 0x%02x (L=%llu)",
 			    off, v, (unsigned long long) L);
-			if ((recvmax_eff == 0 || L <= recvmax_eff) && L > (1u << 16))
-				continue; // would legitimately allocate > 64 KiB: skipped
+			// (64 KiB .. 256 MiB within the limit would legitimately be allocated and
+			// waited for: skipped.  Larger ones cannot be allocated - the sanitizer
+			// refuses, see engine/vs.c - or are not valid lengths at all: kept.)
+			if ((recvmax_eff == 0 || L <= recvmax_eff) && L > (1u << 16) &&
+			    L <= (256ull << 20))
+				continue;
 			if (L == phl + 9) {
 				cur_maxframes = 2; // the valid value
 			} else {
@@ -462,12 +466,16 @@ run_stream(void *arg)
 				0x7fffffffull, 0x80000000ull, 0x80000001ull, 0xffffffffull,
 				0x100000000ull, 0x100000001ull, 0x8000000000000000ull,
 				0xffffffffffffffffull, 0x3fffffffull, 0x40000000ull,
-				0x40000001ull };
+				0x40000001ull,
+				// lengths whose sum with the library's own head room wraps
+				0xffffffffffffffe0ull, 0xffffffffffffffdfull, 0xfffffffffffffff8ull,
+				0xffffffffffffffc0ull, 0x1000000000000000ull, 0x0fffffffffffffffull };
 			if (cs >= (int) (sizeof(LV) / sizeof(LV[0])))
 				break;
 			uint64_t L = LV[cs];
-			if ((recvmax_eff == 0 || L <= recvmax_eff) && L > (1u << 16))
-				continue; // would legitimately allocate > 64 KiB: skipped
+			if ((recvmax_eff == 0 || L <= recvmax_eff) && L > (1u << 16) &&
+			    L <= (256ull << 20))
+				continue; // would legitimately be allocated and waited for: skipped
 			o = 8;
 			if (a->tran == TR_IPC)
 				W[o++] = 1;
@@ -1366,8 +1374,8 @@ main(int argc, char **argv)
 			} F[] = { { 'A', (size_t) -1, 48, 12 },
 				{ 'B', (size_t) -1, 8 * 255, 60 }, { 'C', 16, 8 * 256, 64 },
 				{ 'C', 0, 8 * 256, 64 }, { 'C', (size_t) -1, 8 * 256, 64 },
-				{ 'D', 16, 20, 20 }, { 'D', 0, 20, 20 },
-				{ 'D', (size_t) -1, 20, 20 } };
+				{ 'D', 16, 26, 26 }, { 'D', 0, 26, 26 },
+				{ 'D', (size_t) -1, 26, 26 } };
 			for (int f = 0; f < 8; f++) {
 				if (!T && tran != TR_SOCKFD &&
 				    (F[f].fam == 'B' || (F[f].fam == 'C' && F[f].rmax != 16)))
